@@ -183,6 +183,16 @@ class Check:
         self.pid, self.level = pid, level
         self.tier = a.tier if a.tier in ('quick', 'thorough') else 'quick'
         self.seed, self.replay = a.seed, a.replay
+        self.replay_case = None
+        if self.replay:
+            # --replay <file>: re-run the stream that produced the file (same seed and tier) and
+            # report the verdict of the recorded case.
+            if not os.path.exists(self.replay):
+                self.replay = os.path.join(VERIF, self.replay)
+            rp = json.load(open(self.replay))
+            self.seed = rp.get('seed', self.seed)
+            self.tier = rp.get('tier', self.tier)
+            self.replay_case = rp.get('case')
         self.t0 = time.time()
         self.thorough = self.tier == 'thorough'
         self.budget = a.budget or (3000 if self.thorough else 1200)
@@ -351,7 +361,8 @@ class Check:
             violations += len(real)
             f = real[0]
             p = self._replay_path({'property': self.pid, 'kind': 'failing-input', 'seed': self.seed, 'tier': self.tier,
-                                   'case': f['case'], 'input': f['input'], 'impl_output': f['impl'],
+                                   'case': f['case'], 'input': f['input'], 'input_decoded': try_dec(f['input']),
+                                   'impl_output': f['impl'],
                                    'oracle_clause': f['oracle'], 'others': [x['case'] for x in real[1:20]],
                                    'broken_theorems': self.broken[:5],
                                    'disagreements': self.disagreements[:3]})
@@ -401,12 +412,23 @@ class Check:
             json.dump(ev, f, indent=1, default=str)
         for l in lines:
             print(l)
+        if self.replay:
+            hit = [f for f in self.failures if f['case'] == self.replay_case]
+            print('REPLAY %s case %s: %s' % (self.replay, self.replay_case,
+                                             ('still fails: ' + hit[0]['oracle']) if hit else 'does not fail now'))
         print('%s %s seed=%d: %d/%d obligations discharged, %d cases (%d non-trivial), %d agree with model, '
               '%d disagreements, %d oracle failures, %.1fs'
               % (self.pid, self.tier, self.seed, len(set(self.discharged)), len(self.obligations),
                  self.evaluations, len(self.nontrivial), self.agreed, len(self.disagreements),
                  len(self.failures), self.elapsed()), flush=True)
         sys.exit(1 if violations else 0)
+
+
+def try_dec(x):
+    try:
+        return dec(x) if isinstance(x, str) else x
+    except Exception:
+        return None
 
 
 def tail(text, n=1200):
